@@ -93,11 +93,15 @@ fn tls_cfgs(tier: Tier) -> Vec<Cfg> {
     v
 }
 
-/// configurations that get the second deviation level (thorough): one byte in each direction (every
-/// program step moves data), both programs, every back-end / version / flavour, the poll-style
-/// transport and the default-size adapter
+/// configurations that get the second deviation level (thorough): payload pairs (0,0), (1,1) and
+/// (100,100) on the poll-style transport and the default-size adapter, (1,1) also on the small-limit
+/// adapter; both programs, every back-end / version / flavour
 fn level2(cfg: &Cfg) -> bool {
-    (cfg.c2s, cfg.s2c) == (1, 1) && cfg.layer != Layer::CompatSmall
+    match (cfg.c2s, cfg.s2c) {
+        (1, 1) => true,
+        (0, 0) | (100, 100) => cfg.layer != Layer::CompatSmall,
+        _ => false,
+    }
 }
 
 struct TlsCtx<'a> {
@@ -249,12 +253,13 @@ fn run_tls(rep: &Report, col: &Collector, tier: Tier) -> serde_json::Value {
     json!({
         "configurations": cfgs.len(),
         "deviation_bound": bound,
-        "two_deviation_level_for": "thorough only: payload pair (1,1), both programs, every back-end/version/flavour, layers fut and compat",
+        "two_deviation_level_for": "thorough only: payload pairs (0,0) (1,1) (100,100) on layers fut and compat, (1,1) also on compat-small; both programs, every back-end/version/flavour",
         "choice_points_total_default_runs": points_total,
         "choice_points_max_per_run": points_max,
         "one_deviation_runs": l1,
         "two_deviation_runs": l2.load(Ordering::Relaxed),
         "certificate_key": mat.key_alg,
+        "certificate_key_note": mat.key_note,
         "poll_horizon": POLL_HORIZON,
         "transport_call_horizon": CALL_HORIZON,
     })
